@@ -110,6 +110,9 @@ def do_scalars(rec, hub, U, la, rng):
             top_ = {np.int8: 127, np.uint8: 255, np.int16: 32767, np.int32: 2**31 - 1, np.bool_: 1}[dt_]
             va = rng.integers(max(1, (2 * top_) // 3), top_ + 1, size=sx).astype(dt_)
             vb = rng.integers(max(1, (2 * top_) // 3), top_ + 1, size=gen.shape_of(U, lb_)).astype(dt_)
+            if dt_ in (np.int16, np.int32) and rng.random() < 0.5:
+                # the same numbers in the other byte order (data read from a binary file written on another machine)
+                va, vb = va.astype(va.dtype.newbyteorder()), vb.astype(vb.dtype.newbyteorder())
         A_ = np.vectorize(int, otypes=[object])(va) if va.size else va.astype(object)
         B_ = np.vectorize(int, otypes=[object])(vb) if vb.size else vb.astype(object)
         Bt = np.transpose(B_, [lb_.index(l) for l in la]) if len(la) > 1 else B_  # the second operand in the first one's order
